@@ -186,8 +186,8 @@ def window_of(specs, c):
 SINGLE_KEYS = ("ID", "Name", "gene_id", "transcript_id")
 MULTI_KEYS = ("Parent", "Note", "tag", "Alias")
 CONTENTS = (lambda j, p, i: "v%d%d%d" % (j, p, i),
-            lambda j, p, i: "x%d y%d" % (p, i),
-            lambda j, p, i: "p;%d=%d" % (p, i))
+            lambda j, p, i: "x%d y%d%d" % (j, p, i),
+            lambda j, p, i: "p%d;%d=%d" % (j, p, i))
 
 
 def make_items(shape, j=0, rot=0, cv=0, gtf=False):
@@ -763,11 +763,13 @@ def unit_routing(U):
                     return gffutils.create_db([feature_from_line(l) for l in lines], ":memory:", **kw)
                 if kind == "gen":
                     return gffutils.create_db((feature_from_line(l) for l in lines), ":memory:", **kw)
+                if kind == "dbfile":
+                    return gffutils.create_db([feature_from_line(l) for l in lines], S.path(".db"), **kw)
             raise ValueError(kind)
 
         # ---- (a) consistent input in each of the 48 dialects: semantics follow the format; force_gff overrides; update() routes on the stored dialect
         for di, D in enumerate(ALL_DIALECTS):
-            for kind in ("file", "string", "list", "gen"):
+            for kind in ("file", "string", "list", "gen", "dbfile"):
                 for n in ((1, 3, 4) if U.thorough else ((3,) if kind != "file" else (1, 4))):
                     for force_gff in (False, True):
                         specs = routing_specs(D, n, rot=di)
@@ -787,13 +789,24 @@ def unit_routing(U):
                                 with quiet():
                                     db.update([feature_from_line(ls.text()) for ls in more], make_backup=False)
                                 compare(dict(case, then_update=[ls.text() for ls in more]), db, fmt, specs + more, expd=expd)
+                            if kind == "dbfile":
+                                # the stored dialect and the imported content as seen by a fresh FeatureDB on the file
+                                dbfn = db.dbfn
+                                db.conn.close()
+                                try:
+                                    cases += 1
+                                    db2 = gffutils.FeatureDB(dbfn)
+                                    compare(dict(case, reopened=True), db2, fmt, specs + (more if not force_gff else []), expd=expd)
+                                    db2.conn.close()
+                                finally:
+                                    S.rm(dbfn)
                         except Exception as e:  # noqa
                             fails.append({"case": case, "expected": "import with %s semantics" % fmt, "observed": "exception " + repr(e)})
         U.bounded_result(
             "C09.bounded.routing",
             "create_db applies GTF import semantics (auto ids, transcript_id/gene_id relations, derived transcript and gene) iff the inferred fmt is gtf and not force_gff, "
             "GFF3 semantics (ID, Parent) otherwise; FeatureDB.update routes on the stored dialect and leaves it unchanged",
-            "all 48 dialects x file/from_string/list/generator input x %s exon lines x force_gff in {False, True}; update() with 2 lines written in the other format"
+            "all 48 dialects x file/from_string/list/generator input (memory) and list input (file database, reopened after the update) x %s exon lines x force_gff in {False, True}; update() with 2 lines written in the other format"
             % ("1,3,4" if U.thorough else "1..4"),
             cases, fails, distinct=distinct)
 
